@@ -16,16 +16,16 @@ import (
 // C19: replicas fed the same blocks agree on AppHash and tx results after every block, also when
 // restarted after every height or crashed between FinalizeBlock and Commit at every height.
 type C19 struct {
-	st       *Stats
-	plain    *chain.Replica // same blocks, un-probed (also the transparency check of the probes)
-	restart  *chain.Replica // restarted after every committed height
-	crash    *chain.Replica // FinalizeBlock, throw away, reopen, FinalizeBlock again, Commit
-	LevelDB  bool
-	inited   bool
+	st           *Stats
+	plain        *chain.Replica // same blocks, un-probed (also the transparency check of the probes)
+	restart      *chain.Replica // restarted after every committed height
+	crash        *chain.Replica // FinalizeBlock, throw away, reopen, FinalizeBlock again, Commit
+	LevelDB      bool
+	inited       bool
 	RestartEvery int
 }
 
-func NewC19() *C19          { return &C19{st: NewStats("C19"), RestartEvery: 1} }
+func NewC19() *C19           { return &C19{st: NewStats("C19"), RestartEvery: 1} }
 func (m *C19) Stats() *Stats { return m.st }
 
 func (m *C19) init(w *chain.World) {
@@ -152,11 +152,15 @@ type C18Twin struct {
 	Rule   string
 }
 
-func NewC18Twin() *C18Twin { return &C18Twin{st: NewStats("C18"), Prop: "C18", Rule: "C18.failed_tx_rolled_back"} }
+func NewC18Twin() *C18Twin {
+	return &C18Twin{st: NewStats("C18"), Prop: "C18", Rule: "C18.failed_tx_rolled_back"}
+}
 
 // NewTwinFor builds the same substitution twin reporting under another property (C17 uses it for
 // rejected governance-only / owner-scoped messages sent through real blocks).
-func NewTwinFor(prop, rule string) *C18Twin { return &C18Twin{st: NewStats(prop), Prop: prop, Rule: rule} }
+func NewTwinFor(prop, rule string) *C18Twin {
+	return &C18Twin{st: NewStats(prop), Prop: prop, Rule: rule}
+}
 func (m *C18Twin) Stats() *Stats { return m.st }
 func (m *C18Twin) Close() {
 	if m.twin != nil {
